@@ -821,9 +821,10 @@ func checkShadow(c ShadowCase, ctx *vcommon.Ctx) *vcommon.Failure {
 		if !(next == "shadow" || next == "shadow2" || next == "orig") {
 			return vcommon.Failf("harness/late-binder-error", "binding failure after the call under test in\n%s%s", src, r)
 		}
-	case r.IsErr && next == "" && r.Line == line && r.Col == col+1 &&
+	case r.IsErr && next == "" && r.Line == line && (r.Col == col || r.Col == col+1) &&
 		strings.HasPrefix(r.Msg, "first element of expression is not a function"):
-		// raised at the head symbol of the call under test
+		// raised at the call under test: at its call expression (since
+		// /repo 7516df2) or at its head symbol (before)
 		obs = bindNotCalled
 	}
 	// run-time evidence of the reached binding vs refscope
